@@ -566,7 +566,7 @@ func runC19(w *core.W) {
 		instants = append(instants, r.Int63n(253402300800+62135596800)-62135596800)
 	}
 	for i, u := range instants {
-		zone := zonesForData[i%len(zonesForData)]
+		zone := zonesForData[r.Intn(len(zonesForData))]
 		nsec := int64(0)
 		if i%3 == 0 {
 			nsec = r.Int63n(1e9)
